@@ -375,9 +375,14 @@ def int_eval(e: ast.AST, env: Dict[str, int]):
     if isinstance(e, ast.BoolOp):
         vals = [int_eval(v, env) for v in e.values]
         return all(vals) if isinstance(e.op, ast.And) else any(vals)
-    if isinstance(e, ast.Compare) and len(e.ops) == 1:
-        a, b = int_eval(e.left, env), int_eval(e.comparators[0], env)
-        return {ast.Eq: a == b, ast.NotEq: a != b, ast.Lt: a < b, ast.LtE: a <= b, ast.Gt: a > b, ast.GtE: a >= b}[type(e.ops[0])]
+    if isinstance(e, ast.Compare) and all(isinstance(o, (ast.Eq, ast.NotEq, ast.Lt, ast.LtE, ast.Gt, ast.GtE)) for o in e.ops):
+        a = int_eval(e.left, env)
+        for o, c in zip(e.ops, e.comparators):
+            b = int_eval(c, env)
+            if not {ast.Eq: a == b, ast.NotEq: a != b, ast.Lt: a < b, ast.LtE: a <= b, ast.Gt: a > b, ast.GtE: a >= b}[type(o)]:
+                return False
+            a = b
+        return True
     if isinstance(e, ast.Call) and isinstance(e.func, ast.Name) and e.func.id in ("int", "abs", "bool", "min", "max") and not e.keywords:
         args = [int_eval(a, env) for a in e.args]
         return {"int": int, "abs": abs, "bool": bool, "min": min, "max": max}[e.func.id](*args)
